@@ -75,6 +75,7 @@ type FuncContract struct {
 	Aliases    []string
 	Sites      []*SiteSpec
 	FreeVars   []VarDecl // (closures) captured variables visible in the contract, by name
+	Dead       bool // target does not exist (reported as unresolved)
 	Stable     bool // (interface / extern methods) the single result is a function of the receiver identity only
 }
 
